@@ -5,6 +5,7 @@ import (
 	"math"
 	"sort"
 	"strings"
+	"unicode/utf8"
 
 	"github.com/tsawler/tabula/contentstream"
 	"github.com/tsawler/tabula/core"
@@ -548,8 +549,13 @@ func (e *Extractor) showText(data []byte) {
 	if f, ok := e.fonts[fontName]; ok {
 		decodedText = f.DecodeString(data)
 	} else {
-		// No font registered - use raw bytes as string (fallback)
-		decodedText = string(data)
+		// No font registered - use raw bytes as string (fallback); bytes that are
+		// not valid UTF-8 are read as PDFDocEncoding, as fonts do
+		if utf8.Valid(data) {
+			decodedText = string(data)
+		} else {
+			decodedText = font.PDFDocEncoding.DecodeString(data)
+		}
 	}
 
 	// Calculate text width
